@@ -451,3 +451,53 @@ func init() {
 	sched.Register(&sched.Scenario{Name: "C02/split-race", Race: c02splitRace})
 	sched.Register(&sched.Scenario{Name: "C13/filter-race", Race: c13filterRace})
 }
+
+// ---------------------------------------------------------------------------
+// C02 (S) driver 5: with compression enabled, a command that the compression filter rejects by itself is
+// pipelined behind (or between) ordinary commands to the same backend.
+// oracle    every request of the pipeline gets its reply at quiescence
+// ---------------------------------------------------------------------------
+
+func c02bannedBody() {
+	cl := cluster.New(1, 0, 1)
+	s := vfStartStack(cl, vfSvcConfig(0, c13cps(true, 8), 0))
+	k := cl.KeyInGroup("k", 0, 0)
+	w := s.NewClient("warm")
+	w.Do("SET", k, "v")
+	sched.WaitQuiescent()
+	shapes := [][][]string{
+		{{"GET", k}, {"APPEND", k, "x"}},
+		{{"APPEND", k, "x"}, {"GET", k}},
+		{{"GET", k}, {"GETRANGE", k, "0", "1"}, {"GET", k}},
+		{{"SET", k, "w"}, {"SETBIT", k, "1", "1"}},
+	}
+	pl := shapes[sched.Choose(sched.ClsInput, len(shapes), "pipeline")]
+	var raw []byte
+	for _, p := range pl {
+		raw = append(raw, resp.Encode(resp.Cmd(p...))...)
+	}
+	c := s.NewClient("c0")
+	c.Send(raw)
+	sched.WaitQuiescent()
+	rs, eof := c.Pending()
+	if len(rs) != len(pl) && !eof {
+		sched.Fail("client-waits-forever / command rejected by the compression filter in a pipeline", fmt.Sprintf("pipeline %v: %d of %d replies arrived and the connection is still open", pl, len(rs), len(pl)))
+	}
+	for i, p := range pl {
+		banned := p[0] == "APPEND" || p[0] == "GETRANGE" || p[0] == "SETBIT"
+		if i < len(rs) && banned != (rs[i].Kind == '-') {
+			sched.Fail("wrong-reply-for-pipelined-command / compression", fmt.Sprintf("pipeline %v: replies %v", pl, rs))
+		}
+	}
+	sched.SetOutcome(fmt.Sprint(len(pl)))
+}
+
+func init() {
+	sched.Register(&sched.Scenario{Name: "C02/banned-pipeline", Setup: func(tier string) (sched.Config, func()) {
+		b := sched.Bounds{P: 1, F: 1, Sel: 1}
+		if tier == "thorough" {
+			b = sched.Bounds{P: 2, F: 2, Sel: 1}
+		}
+		return sched.Config{Bounds: b, Iterative: true, MaxSteps: 100000}, c02bannedBody
+	}})
+}
